@@ -102,6 +102,38 @@ def Db.makeSeqLinksB (sch : Schema) (db : Db) : Bool :=
   listed.length == listed.eraseDups.length &&
   db.makeSeqs.all (fun q => listed.contains q.1)
 
+/-- follow pointer / const wrappers (`F_wrapped`) down to the underlying type -/
+def Db.stripType (sch : Schema) (db : Db) : Nat → Int → Int
+  | 0, t => t
+  | n + 1, t =>
+    match db.types.find t with
+    | some r =>
+      if (getInt sch.type r "_flags").toNat &&& 128 != 0 then db.stripType sch n (getInt sch.type r "_wrapped_type") else t
+    | none => t
+
+/-- function ↔ wrapper ↔ type links agree: a wrapper whose first parameter is flagged `PF_is_this`
+takes (a pointer to) the class its function is a method of; the upcast helper a derivation names is
+a method of the derived class and the downcast helper a method of the base -/
+def Db.thisLinksB (sch : Schema) (db : Db) : Bool :=
+  (db.wrappers.all fun p =>
+    match db.functions.find (getInt sch.wrapper p.2 "_function"), getRecs sch.wrapper p.2 "_parameters" with
+    | some fr, p0 :: _ =>
+      let sub := subSpec sch.wrapper "_parameters"
+      if (subInt sub p0 "_parameter_flags").toNat &&& 2 != 0
+      then db.stripType sch 8 (subInt sub p0 "_type") == getInt sch.function fr "_class"
+      else true
+    | _, _ => true) &&
+  (db.types.all fun p =>
+    let sub := subSpec sch.type "_derivations"
+    (getRecs sch.type p.2 "_derivations").all fun d =>
+      let fl := (subInt sub d "_flags").toNat
+      (fl &&& 1 == 0 || (match db.functions.find (subInt sub d "_upcast") with
+        | some fr => getInt sch.function fr "_class" == p.1
+        | none => true)) &&
+      (fl &&& 2 == 0 || (match db.functions.find (subInt sub d "_downcast") with
+        | some fr => getInt sch.function fr "_class" == subInt sub d "_base"
+        | none => true)))
+
 /-- non-empty unique names are pairwise distinct -/
 def Db.uniqueNamesDistinctB (sch : Schema) (db : Db) : Bool :=
   let names := (db.wrappers.map fun p => getStr sch.wrapper p.2 "_unique_name").filter (fun n => !n.isEmpty)
